@@ -170,7 +170,13 @@ func (msg *Message) RESPBytes() ([]byte, error) {
 			return nil, fmt.Errorf(errorUnknownMessageType, msg.Type)
 		}
 		respBytes.WriteByte(b)
-		respBytes.Write(msg.bytes)
+		// A line can not carry CR or LF, otherwise an invalid protocol is emitted.
+		for _, c := range msg.bytes {
+			if c == cr || c == lf {
+				c = ' '
+			}
+			respBytes.WriteByte(c)
+		}
 		respBytes.WriteRune(cr)
 		respBytes.WriteRune(lf)
 	case BulkMessage:
